@@ -34,7 +34,7 @@ RULE = (
     "persistent-and-loaded, optionally one child expired: all sequences of two mutations over objects "
     "{1,2} from the full operation alphabet of the kind (append, remove, insert, pop, del l[i], l[i]=v, "
     "slice assignment, bulk replacement, scalar assignment incl. None, del) on either side, followed by "
-    "flush + expire_all + reload (quick: a seeded sample of 1300 of the ~9000, thorough: all), fixed "
+    "flush + expire_all + reload (quick: a seeded sample of 900 of the ~13000, thorough: all), fixed "
     "witness sequences, plus random sequences of 1..7 operations over all three objects with random "
     "initial rows. non-trivial = the sequence mutates both sides of the pair, or uses bulk/slice "
     "replacement, and changes the relationship"
@@ -253,16 +253,16 @@ def gen_cases(rng, tier):
     cases = [{"in": [k, copy.deepcopy(i), copy.deepcopy(ops)], "kind": "core"} for k, i, ops in _CORE]
     fam = list(_families())
     if tier != "thorough":
-        fam = rng.sample(fam, 1300)
+        fam = rng.sample(fam, 900)
     cases += fam
-    for _ in range(10000 if tier == "thorough" else 800):
+    for _ in range(10000 if tier == "thorough" else 600):
         cases.append(_rand_case(rng))
     for n in (0, 1, 2, 3):  # del obj.collection on set / dict collections with 0..3 members
         for kind in (3, 4):
             for pers in (0, 1):
                 rel = [[1, y] for y in OBJS[:n]]
                 cases.append({"in": [kind, [pers, rel, []], [[DELC, 1], [RELOAD]]], "kind": "delc-setdict", "model": False})
-    for _ in range(3000 if tier == "thorough" else 250):
+    for _ in range(3000 if tier == "thorough" else 150):
         cases.append(_rand_setdict_case(rng))
     seen, out = set(), []
     for c in cases:
